@@ -597,6 +597,12 @@ var negClasses = []negClass{
 			d.Keys = append([]eKey{k}, d.Keys...)
 		}
 	}},
+	// ... also for the fields of an inline (anonymous) object
+	{"inline-optional-required", 4, func(r *vh.Rand, d *entityDecl) {
+		in := plainString("bothWays")
+		in.Required, in.Optional = true, true
+		d.Data = append(d.Data, uField{Name: "inlineBoth", Inline: "object", J5Kind: "object", PType: 11, InFields: []uField{plainString("fine"), in}})
+	}},
 	{"dangling-reference", 3, func(r *vh.Rand, d *entityDecl) {
 		// an object reference that names nothing: resolveType fails
 		d.Data = append(d.Data, uField{Name: "dangling", Obj: vh.Pick(r, []string{"NoSuchType", strcase.ToCamel(d.Name) + "Stat", "Addres"}), PType: 11, J5Kind: "object"})
@@ -665,6 +671,23 @@ var negClasses = []negClass{
 	{"event-lower-initial", 6, func(r *vh.Rand, d *entityDecl) {
 		// a one-word lower-case event: the option ToLowerCamel(name) and the nested message share the name
 		d.Events = append(d.Events, eEvent{Name: vh.Pick(r, []string{"create", "archived", "x"})})
+	}},
+	{"inline-dup-field", 6, func(r *vh.Rand, d *entityDecl) {
+		d.Data = append(d.Data, uField{Name: "inlineTwins", Inline: "object", J5Kind: "object", PType: 11,
+			InFields: []uField{plainString("twin"), plainString(vh.Pick(r, []string{"twin", "Twin"}))}})
+	}},
+	{"inline-oneof-option-type", 6, func(r *vh.Rand, d *entityDecl) {
+		// the option "type" next to the proto oneof "type" of the inline wrapper (any j5 oneof: C02/C07 territory)
+		d.Data = append(d.Data, uField{Name: "inlineChoice", Inline: "oneof", J5Kind: "oneof", PType: 11,
+			InFields: []uField{plainString("a"), plainString("type")}})
+	}},
+	{"inline-name-clash", 6, func(r *vh.Rand, d *entityDecl) {
+		// two inline types of one message with the same ToCamel name would need equal snake names; an inline
+		// enum VALUE, however, lives in the message scope: KIND_A of `kind` and of `Kind_`
+		d.Data = append(d.Data,
+			uField{Name: "kind", Inline: "enum", J5Kind: "enum", PType: 14, InOptions: []string{"A"}},
+			uField{Name: "kindA", Inline: "enum", J5Kind: "enum", PType: 14, InOptions: []string{"B"}},
+			uField{Name: "kind_", Inline: "enum", J5Kind: "enum", PType: 14, InOptions: []string{"A"}})
 	}},
 	{"dup-event-field", 6, func(r *vh.Rand, d *entityDecl) {
 		d.Events = append(d.Events, eEvent{Name: "WithTwins", Fields: []uField{plainString("twin"), plainString("twin")}})
